@@ -273,7 +273,7 @@ def run_harnesses(harnesses, timeout, mem_gb, jobs=None, progress=None):
     results = []
     jobs = jobs or NCPU
     with cf.ThreadPoolExecutor(max_workers=jobs) as ex:
-        futs = {ex.submit(verify_one, h, (h.get("_timeout") or timeout), mem_gb): h for h in harnesses}
+        futs = {ex.submit(verify_one, h, (h.get("_timeout") or timeout), mem_gb, tuple(h.get("_cbmc_args") or ())): h for h in harnesses}
         for f in cf.as_completed(futs):
             r = f.result()
             results.append(r)
